@@ -77,12 +77,24 @@ Definition rdpe_div_d (x : rdpe) (d : b64) : rdpe :=
   rdpe_norm (Rdpe (fdiv (mnt x) d) (esp x)).
 
 (* ---- addition / subtraction ---------------------------------------------- *)
+(* delta = e1 - e2.  Code as it was: plain long subtraction (wraps). *)
+Definition esp_distance_old (a b : Z) : Z := wrap64 (a - b).
+(* fixed: helper rdpe_esp_distance, saturating at LONG_MIN / LONG_MAX
+     if (e2 < 0 && e1 > LONG_MAX + e2) return LONG_MAX;
+     if (e2 > 0 && e1 < LONG_MIN + e2) return LONG_MIN;   return e1 - e2; *)
+Definition esp_distance (a b : Z) : Z :=
+  if (b <? 0) && (LONG_MAX + b <? a) then LONG_MAX
+  else if (0 <? b) && (a <? LONG_MIN + b) then LONG_MIN
+  else a - b.
+
+Section WithDistance.
+Variable dist : Z -> Z -> Z.
 (* common tail of rdpe_add, rdpe_add_eq *)
-Definition rdpe_add_core (x y : rdpe) : rdpe :=
+Definition rdpe_add_core_gen (x y : rdpe) : rdpe :=
   if feq0 (mnt y) then x
   else if feq0 (mnt x) then y
   else
-    let delta := wrap64 (esp x - esp y) in
+    let delta := dist (esp x) (esp y) in
     if NBT <? delta then x
     else if delta <? - NBT then y
     else if delta =? 0 then rdpe_norm (Rdpe (fadd (mnt x) (mnt y)) (esp x))
@@ -90,6 +102,25 @@ Definition rdpe_add_core (x y : rdpe) : rdpe :=
       rdpe_norm (Rdpe (fadd (mnt x) (fldexp (mnt y) (wrap32 (wrap64 (- delta))))) (esp x))
     else
       rdpe_norm (Rdpe (fadd (fldexp (mnt x) (wrap32 delta)) (mnt y)) (esp y)).
+
+Definition rdpe_sub_gen (x y : rdpe) : rdpe :=
+  if feq0 (mnt y) then x
+  else if feq0 (mnt x) then Rdpe (fneg (mnt y)) (esp y)
+  else
+    let delta := dist (esp x) (esp y) in
+    if NBT <? delta then x
+    else if delta <? - NBT then Rdpe (fneg (mnt y)) (esp y)
+    else if delta =? 0 then rdpe_norm (Rdpe (fsub (mnt x) (mnt y)) (esp x))
+    else if 0 <? delta then
+      rdpe_norm (Rdpe (fsub (mnt x) (fldexp (mnt y) (wrap32 (wrap64 (- delta))))) (esp x))
+    else
+      rdpe_norm (Rdpe (fsub (fldexp (mnt x) (wrap32 delta)) (mnt y)) (esp y)).
+End WithDistance.
+
+Definition rdpe_add_core := rdpe_add_core_gen esp_distance.
+Definition rdpe_sub := rdpe_sub_gen esp_distance.
+Definition rdpe_add_core_old := rdpe_add_core_gen esp_distance_old.
+Definition rdpe_sub_old := rdpe_sub_gen esp_distance_old.
 
 Definition both_max (x y : rdpe) : bool := (esp x =? LONG_MAX) && (esp y =? LONG_MAX).
 
@@ -102,20 +133,10 @@ Definition rdpe_add (x y : rdpe) : rdpe :=
 (* true when the original rdpe_add leaves the model (calls rdpe_set_dl) *)
 Definition rdpe_add_old_out_of_model (x y : rdpe) : bool :=
   negb (fgt0 (mnt x) && fgt0 (mnt y) && both_max x y) && (flt0 (mnt x) && flt0 (mnt y) && both_max x y).
+Definition rdpe_add_old (x y : rdpe) : rdpe :=
+  if fgt0 (mnt x) && fgt0 (mnt y) && both_max x y then RDPE_MAX else rdpe_add_core_old x y.
 Definition rdpe_add_eq (x y : rdpe) : rdpe := rdpe_add_core x y.
-
-Definition rdpe_sub (x y : rdpe) : rdpe :=
-  if feq0 (mnt y) then x
-  else if feq0 (mnt x) then Rdpe (fneg (mnt y)) (esp y)
-  else
-    let delta := wrap64 (esp x - esp y) in
-    if NBT <? delta then x
-    else if delta <? - NBT then Rdpe (fneg (mnt y)) (esp y)
-    else if delta =? 0 then rdpe_norm (Rdpe (fsub (mnt x) (mnt y)) (esp x))
-    else if 0 <? delta then
-      rdpe_norm (Rdpe (fsub (mnt x) (fldexp (mnt y) (wrap32 (wrap64 (- delta))))) (esp x))
-    else
-      rdpe_norm (Rdpe (fsub (fldexp (mnt x) (wrap32 delta)) (mnt y)) (esp y)).
+Definition rdpe_add_eq_old (x y : rdpe) : rdpe := rdpe_add_core_old x y.
 Definition rdpe_sub_eq (x y : rdpe) : rdpe := rdpe_sub x y.
 
 (* ---- _eq variants that differ only by aliasing ----------------------------- *)
@@ -141,9 +162,11 @@ Definition rdpe_pow_si := rdpe_pow_si_gen rdpe_mul_eq.
 Definition rdpe_pow_si_old := rdpe_pow_si_gen rdpe_mul_eq_old.
 
 (* ---- relational -------------------------------------------------------------- *)
-Definition rdpe_cmp (x y : rdpe) : Z :=
-  let t := rdpe_sub x y in
+Definition rdpe_cmp_gen (sub : rdpe -> rdpe -> rdpe) (x y : rdpe) : Z :=
+  let t := sub x y in
   if fgt0 (mnt t) then 1 else if flt0 (mnt t) then -1 else 0.
+Definition rdpe_cmp := rdpe_cmp_gen rdpe_sub.
+Definition rdpe_cmp_old := rdpe_cmp_gen rdpe_sub_old.
 Definition rdpe_sgn (x : rdpe) : Z :=
   if fgt0 (mnt x) then 1 else if flt0 (mnt x) then -1 else 0.
 Definition rdpe_eq_zero (x : rdpe) : bool := feq0 (mnt x) && (esp x =? 0).
@@ -164,7 +187,7 @@ Definition rdpe_ord_old (o : ordop) (x y : rdpe) : bool :=
   else if flt0 (mnt x) && fgt0 (mnt x) then negb (ord_less o)
   else if negb (feq0 (mnt x)) && negb (feq0 (mnt y)) && (esp y <? esp x) then negb (ord_less o)
   else if negb (feq0 (mnt x)) && negb (feq0 (mnt y)) && (esp x <? esp y) then ord_less o
-  else ord_final o (mnt (rdpe_sub x y)).
+  else ord_final o (mnt (rdpe_sub_old x y)).
 
 (* fixed code:
      if (m1 > 0 && m2 < 0) return !less;   if (m1 < 0 && m2 > 0) return less;
